@@ -153,7 +153,8 @@ SRC_TIE = {
     'C02': {'Bits': ['BitArray.tolist', 'BitArray.fromlist'], 'Field': ['_get_field_length', '_field_to_iso8583', '_iso8583_to_field_frame']},
     'C07': {'Pds': ['_pds_to_dict', '_icc_to_dict', '_pds_to_de'], 'Field': ['_string_to_pytype']},
     'C08': {'Pds': ['_pds_to_dict', '_icc_to_dict', '_pds_to_de'], 'Bits': ['BitArray.tolist', 'BitArray.fromlist'],
-            'Field': ['_get_field_length', '_iso8583_to_field_frame', '_string_to_pytype']},
+            'Field': ['_get_field_length', '_iso8583_to_field_frame', '_string_to_pytype'],
+            'Loop': ['_iso8583_to_dict_loop']},
     'C12': {'Pds': ['_pds_to_dict', '_icc_to_dict', '_pds_to_de']},
     'C13': {'Pin': ['Iso0PinBlock.to_bytes', 'Iso0PinBlock.from_bytes', 'Iso4PinBlock.to_bytes', 'Iso4PinBlock.from_bytes']},
     'C14': {'Misc': ['_get_tsp', '_pan_prefix'],
